@@ -832,7 +832,9 @@ def finalize(ctx, tier, seed):
         for m in ("select", "delete", "insert", "adjoin", "concat", "append", "remove", "incorp", "reorder", "sort", "group"):
             assert c.get(f"op:{key}:{m}_taxa", 0) > 0, (key, m)
             assert c.get(f"op:{key}:{m}:generic", 0) > 0, (key, m)
-    for k in ("select", "delete", "insert", "adjoin", "remove", "reorder", "sort"):
+    # every operation whose result could be followed up changed the state at least once (append / incorp / concat are
+    # applied too — see the op: counters above — but on the unchanged tree their results are broken and pruned)
+    for k in ("select", "delete", "insert", "adjoin", "remove", "reorder", "sort", "group"):
         assert f"changes:{k}" in f, k
     for fl in ("constant-column", "nan-column", "all-nan-column", "all-nan-but-one-column", "large-offset",
                "large-constant-column", "tied-maximum", "n=1", "n=2", "n=3", "n=4", "t=1", "t=2", "labelled", "unlabelled",
